@@ -48,6 +48,14 @@ func (c *Crew) NewTimersSpec() *core.Spec {
 		return acc
 	}
 
+	// failed reports a request that could not be executed.  The
+	// request's own bindings ("?id", ...) are dropped (as they are
+	// when a request succeeds): otherwise the start node would only
+	// match requests that repeat them.
+	failed := func(bs match.Bindings, msg string) (*core.Execution, error) {
+		return core.NewExecution(onlyTimers(bs).Extend("error", msg)), nil
+	}
+
 	spec := &core.Spec{
 		Name: "timers",
 		Doc:  "A machine that makes in-memory timers that send messages.",
@@ -74,35 +82,35 @@ func (c *Crew) NewTimersSpec() *core.Spec {
 					F: func(ctx context.Context, bs match.Bindings, props core.StepProps) (*core.Execution, error) {
 						x, have := bs["?in"]
 						if !have {
-							return core.NewExecution(bs.Extend("error", "no in")), nil
+							return failed(bs, "no in")
 						}
 						in, is := x.(string)
 						if !is {
-							return core.NewExecution(bs.Extend("error", fmt.Sprintf("non-string in: %T %#v", x, x))), nil
+							return failed(bs, fmt.Sprintf("non-string in: %T %#v", x, x))
 						}
 
 						d, err := time.ParseDuration(in)
 						if err != nil {
 							msg := fmt.Sprintf("bad in '%s': %v", in, err)
-							return core.NewExecution(bs.Extend("error", msg)), nil
+							return failed(bs, msg)
 						}
 
 						x, have = bs["?id"]
 						if !have {
-							return core.NewExecution(bs.Extend("error", "no id")), nil
+							return failed(bs, "no id")
 						}
 						id, is := x.(string)
 						if !is {
-							return core.NewExecution(bs.Extend("error", fmt.Sprintf("non-string id: %T %#v", x, x))), nil
+							return failed(bs, fmt.Sprintf("non-string id: %T %#v", x, x))
 						}
 
 						msg, have := bs["?msg"]
 						if !have {
-							return core.NewExecution(bs.Extend("error", "no message")), nil
+							return failed(bs, "no message")
 						}
 
 						if err = c.timers.Add(ctx, id, msg, d); err != nil {
-							return core.NewExecution(bs.Extend("error", err.Error())), nil
+							return failed(bs, err.Error())
 						}
 
 						c.timers.changed()
@@ -125,15 +133,15 @@ func (c *Crew) NewTimersSpec() *core.Spec {
 					F: func(ctx context.Context, bs match.Bindings, props core.StepProps) (*core.Execution, error) {
 						x, have := bs["?id"]
 						if !have {
-							return core.NewExecution(bs.Extend("error", "no id")), nil
+							return failed(bs, "no id")
 						}
 						id, is := x.(string)
 						if !is {
-							return core.NewExecution(bs.Extend("error", fmt.Sprintf("non-string id: %T %#v", x, x))), nil
+							return failed(bs, fmt.Sprintf("non-string id: %T %#v", x, x))
 						}
 
 						if err := c.timers.Cancel(ctx, id); err != nil {
-							return core.NewExecution(bs.Extend("error", err.Error())), nil
+							return failed(bs, err.Error())
 						}
 
 						c.timers.changed()
